@@ -202,6 +202,18 @@ type world struct {
 	problems []string
 	trace    []string
 	outside  bool // the statement runs outside any block (runOutside)
+	// injectedSeen counts statement-level results (write / update / delete / read through a gorm handle)
+	// that carry the injected driver error: one driver call failed once, so at most one statement may
+	// report it; a second report means an earlier failure was kept somewhere and handed out again
+	injectedSeen int
+}
+
+func (w *world) note(err error) error {
+	var inj *recdrv.ErrInjected
+	if err != nil && errors.As(err, &inj) {
+		w.injectedSeen++
+	}
+	return err
 }
 
 func (w *world) add(f string, a ...interface{}) {
@@ -220,7 +232,7 @@ func (w *world) write(tx *gorm.DB) error {
 	w.nextID++
 	id := w.nextID
 	v := fmt.Sprintf("v%d", id)
-	err := tx.Create(&KV{ID: id, V: v}).Error
+	err := w.note(tx.Create(&KV{ID: id, V: v}).Error)
 	w.trace = append(w.trace, fmt.Sprintf("write %d -> %v", id, err))
 	if err == nil {
 		w.state[id] = v
@@ -240,6 +252,7 @@ func (w *world) mutate(tx *gorm.DB, kind string) error {
 			res = tx.Delete(&KV{ID: ghostKey})
 		}
 		ghostID = 0
+		w.note(res.Error)
 		w.trace = append(w.trace, fmt.Sprintf("%s (no row matches; its hook writes %d: %v) -> %v", kind, id, ghostWrote, res.Error))
 		// inside an explicit transaction what the hook wrote is part of that transaction whether or not the
 		// statement after it failed; outside, the default transaction makes the whole call one unit
@@ -265,14 +278,14 @@ func (w *world) mutate(tx *gorm.DB, kind string) error {
 	id := ids[len(ids)/2]
 	if kind == "update" {
 		nv := w.state[id] + "u"
-		err := tx.Model(&KV{ID: id}).Update("v", nv).Error
+		err := w.note(tx.Model(&KV{ID: id}).Update("v", nv).Error)
 		w.trace = append(w.trace, fmt.Sprintf("update %d -> %v", id, err))
 		if err == nil {
 			w.state[id] = nv
 		}
 		return err
 	}
-	err := tx.Delete(&KV{ID: id}).Error
+	err := w.note(tx.Delete(&KV{ID: id}).Error)
 	w.trace = append(w.trace, fmt.Sprintf("delete %d -> %v", id, err))
 	if err == nil {
 		delete(w.state, id)
@@ -295,7 +308,7 @@ func render(m map[int64]string) string {
 
 func (w *world) read(tx *gorm.DB) error {
 	var rows []KV
-	err := tx.Order("id").Find(&rows).Error
+	err := w.note(tx.Order("id").Find(&rows).Error)
 	if err != nil {
 		w.trace = append(w.trace, fmt.Sprintf("read -> %v", err))
 		return err
@@ -585,6 +598,8 @@ type program struct {
 	// statement texts as inside (so a prepared-statement cache has seen them outside a transaction),
 	// and the handle must still be usable afterwards
 	pre, post []item
+	// cold: the configured statement cache (PrepareStmt configurations) is emptied before every run
+	cold bool
 }
 
 func genOutside(r *core.Rand) []item {
@@ -651,6 +666,12 @@ func (p program) String() string {
 // execute runs the program once on handle hi with a fault at call k (0 = none).
 func execute(hi int, p program, failAt int) (w *world, calls int, retErr error, panicVal interface{}) {
 	h := handles[hi]
+	if p.cold {
+		// start from an empty statement cache: preparation is then part of the program and of its fault points
+		if pdb, ok := h.DB.ConnPool.(*gorm.PreparedStmtDB); ok {
+			pdb.Reset()
+		}
+	}
 	if _, err := h.SQL.Exec("DELETE FROM kvs; INSERT INTO kvs(id,v) VALUES (1,'seed1'),(2,'seed2')"); err != nil {
 		panic(err)
 	}
@@ -692,6 +713,9 @@ func execute(hi int, p program, failAt int) (w *world, calls int, retErr error, 
 	}
 	if render(got) != render(w.state) {
 		w.add("table holds [%s], the blocks' outcomes define [%s]", render(got), render(w.state))
+	}
+	if w.injectedSeen > 1 {
+		w.add("one driver call failed once, but %d statements returned that failure: an earlier failure was handed out again", w.injectedSeen)
 	}
 	if ctr := h.Rec.Counters(); ctr.OpenTx != 0 {
 		w.add("%d transactions still open at the driver", ctr.OpenTx)
@@ -758,7 +782,11 @@ func run(c *core.Ctx) {
 	if r.Bool() {
 		p.pre, p.post = genOutside(r), genOutside(r)
 	}
+	p.cold = (c.Case/8)%2 == 1
 	desc := cfgOf(hi).String() + " :: " + p.String()
+	if p.cold && cfgOf(hi).prep {
+		desc += " (cold statement cache)"
+	}
 	c.Logf("PROGRAM %s", desc)
 	w, calls, err, pv := execute(hi, p, 0)
 	c.Inc("programs")
